@@ -292,7 +292,30 @@ def _sd_history(dual, seq, ops=None, maxlen=None):
             local = op[0] == "bestlocal"
             before = {qid: list(v) for qid, v in model.q.items()}
             got = sd.GetDataItemWithMaxLocalR() if local else sd.GetDataItemWithMaxGlobalR()
+            events = list(_LOG)
             pops = drain(model, msgs, ctx)
+            if pops:
+                # a request may refill its queue only when that queue has run empty, and it hands out the last entry
+                # it takes: nothing may be queued or cleared in that queue after the returned entry was taken
+                rq = pops[-1][0]
+                held = len(before.get(rq, []))
+                last_pop = max(i for i, ev in enumerate(events) if ev[0] == "pop" and ev[1] == rq)
+                for i, ev in enumerate(events):
+                    if ev[1] != rq:
+                        continue
+                    if i > last_pop:
+                        msgs.append(f"{ctx}: the request changed its queue ({ev[0]}) after taking the entry it returned - the "
+                                    f"queue no longer is the one implied by the operations")
+                        break
+                    if ev[0] == "pop":
+                        held -= 1
+                    elif ev[0] == "clr":
+                        if held > 0:
+                            msgs.append(f"{ctx}: the request cleared / refilled its queue although it still held {held} entries")
+                            break
+                        held = 0
+                    else:
+                        held += 1
             if not pops:
                 msgs.append(f"{ctx}: best-interval request made no queue access")
             else:
